@@ -26,6 +26,9 @@ func runAB(r *verifsim.Run) {
 	refillS := r.OneOf(1, 2, 5, 20, r.Range(1, 90))
 	c.Thr = &config.ThermalThrottler{Activate: true, BucketSize: time.Duration(bucketS) * time.Second, MinRefill: time.Duration(refillS) * time.Second}
 	c.Cont = r.Chance(1, 2)
+	if !c.Exact && r.Chance(1, 2) {
+		c.Motion.DynamicThreshold = true
+	}
 	if c.MinS+c.Preview == 0 {
 		// refill rate 0 (min-secs + preview-secs = 0) is outside C05's quantifier ("refill > 0");
 		// the rate limiter library refuses it (observation recorded in DESIGN.md)
@@ -63,7 +66,44 @@ func runAB(r *verifsim.Run) {
 	C := float64(bucketS * c.Fps)
 	rho := float64(M) / float64(refillS)
 	r.Set("throttle", fmt.Sprintf("bucket%ds refill%ds minclip %d frames capacity %v rate %.3f/s", bucketS, refillS, M, C, rho))
-	w, tr := runScenario(sc, aOpts{SkipEv: -1})
+	// background/threshold of the detector at each processor-level trigger (in-package observation)
+	type trig struct {
+		thresh uint16
+		bg     uint64
+	}
+	var lastTrig *trig
+	var trigOfEv = map[int]*trig{}
+	w := newAWorld(sc, aOpts{SkipEv: -1})
+	tr := w.tr
+	w.exec(aOpts{SkipEv: -1, After: func(i int, w *aWorld) {
+		if tr.Ev[i].Started {
+			d := w.mp.motionDetector
+			lastTrig = &trig{d.tempThresh, zz.SumPix(d.background.Pix)}
+		}
+		trigOfEv[i] = lastTrig
+	}})
+	for i := range tr.Ev {
+		for _, cl := range tr.Ev[i].Calls[zz.SinkMotion] {
+			if cl.Op != 'S' {
+				continue
+			}
+			tg := trigOfEv[i]
+			if tg == nil || cl.Bg == nil || cl.Thresh != tg.thresh || zz.SumPix(cl.Bg) != tg.bg {
+				kind := "start"
+				if !tr.Ev[i].Started {
+					kind = "mid-trigger-restart"
+				}
+				got := -1
+				if tg != nil {
+					got = int(tg.thresh)
+				}
+				r.Violate("C15", "C15.stored", "throttled:"+kind, "event %d: the file started behind the throttle (%s) was given threshold %d / a background that differ from the detector's at its trigger (threshold %d)", i, kind, cl.Thresh, got)
+				r.Violate("C11", "C11.trigger-thresh", "throttled:"+kind, "event %d: the file started behind the throttle (%s) is stored with threshold %d, the threshold at trigger time was %d", i, kind, cl.Thresh, got)
+			} else if !tr.Ev[i].Started {
+				r.Probe("restart-args-checked")
+			}
+		}
+	}
 	r.SimTime(w.clock.T.Sub(sc.Start))
 	r.Count("frames", w.nextID)
 	for i := range tr.Ev {
